@@ -32,7 +32,7 @@ func (d *dataTreeNavigator) DeeplyAssign(context Context, path []interface{}, rh
 		// otherwise we'll clobber any existing fields
 		assignmentOp = &Operation{OperationType: multiplyAssignOpType, Preferences: multiplyPreferences{
 			AppendArrays:  true,
-			TraversePrefs: traversePreferences{DontFollowAlias: true},
+			TraversePrefs: traversePreferences{DontFollowAlias: true, ExactKeyMatch: true},
 			AssignPrefs:   assignPreferences{},
 		}}
 	}
@@ -41,7 +41,7 @@ func (d *dataTreeNavigator) DeeplyAssign(context Context, path []interface{}, rh
 
 	assignmentOpNode := &ExpressionNode{
 		Operation: assignmentOp,
-		LHS:       createTraversalTree(path, traversePreferences{}, false),
+		LHS:       createTraversalTree(path, traversePreferences{ExactKeyMatch: true}, false),
 		RHS:       &ExpressionNode{Operation: rhsOp},
 	}
 
